@@ -170,6 +170,16 @@ def check_pipeline(case):
         raise Violation("C01/pipeline/close-raises", f"stages={case['stages']} {close_errors[0]}")
 
 
+def check_native(case):
+    from ..native import run_native
+
+    got, want = run_native(case)
+    if got != want:
+        raise Violation(f"C01/{case['tool'].split('-')[0]}/native-source-differs",
+                        f"{case['tool']} over {case['kinds']} data={case['data']} p={case['p']}: async={got} stdlib={want}")
+    return None
+
+
 def shards(tier):
     n = 2000
     from ..pipelines import pipelines
@@ -185,6 +195,11 @@ def shards(tier):
                     thorough_mult=8) for i in range(4)]
     extra = large + [Shard(f"pipelines-{i}", check_pipeline, strategy=pipelines(3 if tier == "quick" else 4), n=1500,
                    nontrivial=lambda c: len(c["items"]) >= 2, thorough_mult=15) for i in range(4)]
+    from ..native import native_cases, TOOLS_N, AGGREGATIONS
+
+    iter_tools = [t for t in TOOLS_N if t not in AGGREGATIONS]
+    extra += [Shard(f"native-sources-{i}", check_native, strategy=native_cases(iter_tools), n=1500,
+                    nontrivial=lambda c: sum(len(d) for d in c["data"]) >= 2, thorough_mult=15) for i in range(2)]
     return extra + [
         Shard(name, check, strategy=cases(name, tier),
               n=n, nontrivial=nontrivial, classify=classify, thorough_mult=15)
